@@ -6,6 +6,7 @@ import (
 	"fmt"
 	"os"
 	"strings"
+	"time"
 
 	"github.com/shivasurya/code-pathfinder/sourcecode-parser/graph"
 	sitter "github.com/smacker/go-tree-sitter"
@@ -75,8 +76,10 @@ func cmdScanDump(args []string) int {
 		root := tree.RootNode()
 		fmt.Fprintf(cw, "CASE %s\nPATH %s\nSRC %s\n", id, hx(path), hx(string(src)))
 		dumpCST(cw, root, "")
+		t0 := time.Now()
 		g, p := buildOne(root, src, path)
 		fmt.Fprintf(iw, "CASE %s\n", id)
+		fmt.Fprintf(iw, "TIME %d\n", time.Since(t0).Milliseconds())
 		if p != "" {
 			fmt.Fprintf(iw, "OUTCOME panic\n")
 		} else {
